@@ -251,13 +251,19 @@ def check(prog, rep):
         if not recv:
             continue
         assigns = local_assignments(fi.node)
-        aliases = {nm for nm, vals in assigns.items() for v in vals
-                   if isinstance(v, ast.Attribute) and dotted(v.value) in recv and v.attr in cache_attrs}
+        def cache_attr_of(v):
+            """the cache attribute a value may be: P.attr, `P.attr if .. else ..`, `P.attr or ..`"""
+            for c_ in [v] + ([v.body, v.orelse] if isinstance(v, ast.IfExp) else list(v.values) if isinstance(v, ast.BoolOp) else []):
+                if isinstance(c_, ast.Attribute) and dotted(c_.value) in recv and c_.attr in cache_attrs:
+                    return c_.attr
+            return None
+
+        aliases = {nm for nm, vals in assigns.items() for v in vals if isinstance(v, ast.AST) and cache_attr_of(v)}
         for n in walk_local(fi.node, include_self=False):
             if isinstance(n, ast.Assign):
                 for t in n.targets:
                     if isinstance(t, ast.Subscript) and isinstance(t.value, ast.Name) and t.value.id in aliases:
-                        attr = [v.attr for v in assigns[t.value.id] if isinstance(v, ast.Attribute)][0]
+                        attr = [cache_attr_of(v) for v in assigns[t.value.id] if isinstance(v, ast.AST) and cache_attr_of(v)][0]
                         lazy.append((fi, n, t.value.id, attr))
                         producers.setdefault(attr, []).extend(_producer_roots(prog, cg, fi, n.value))
     total_reach = 0
